@@ -4,7 +4,11 @@ CONSTANTS
   Ext = {0, 1, 2, 3}
   Ext3 = {0, 1, 2, 3}
   MaxRank = 3
-  RootSmall = FALSE
+  RootSet = "all"
+  Layouts = {"C", "F", "col", "rev"}
+  LayCtors = {"ctor_a", "ctor_am", "mul_unit", "rmul_unit", "mixlist"}
+  MixQuick = FALSE
+  MixRich = FALSE
   IntSet <- IntsA
   SliceSet = {"from1", "step2", "rev", "empty", "to1", "last"}
   FancySet = {"f0", "f00", "fl0", "fe", "f2d"}
